@@ -2,6 +2,7 @@ import Clover.Props.C02
 import Clover.Spec.Spec
 import Clover.Proofs.RefineFindAll
 import Clover.Proofs.ReadsAny
+import Clover.Proofs.ReadsExact
 /-! # C01 — queries return exactly the documents that satisfy their criteria -/
 namespace CV.Props.C01
 open CV
@@ -78,5 +79,36 @@ theorem findAll_returns_nothing_else (s : Spec.State) (σ : KVS) (hw : WF s) (hr
     ∃ res, (withTx false (Op.body likeFn fnFam (.findAll q)) noFault σ).1 = .ok (.docs res) ∧
       (∀ d ∈ res, Spec.lookup d.objectId coll.docs = some d ∧ satOpt likeFn fnFam d q.crit = true) ∧
       (res.map Doc.objectId).Nodup := findAll_sound_any_plan likeFn fnFam s σ hw hr q coll hl
+
+/-- **Exactly the satisfying documents, each once — with any indexes**: in every store representing a
+    well-formed abstract state, on the key domain, a fault-free `FindAll(q)` (no sort, no window)
+    returns a permutation of `filter (sat q.crit)` over the live documents of the collection. -/
+theorem findAll_exact (s : Spec.State) (σ : KVS) (hw : WF s) (hr : Rep s σ) (q : Query)
+    (coll : Spec.Coll) (hl : Spec.lookup q.coll s = some coll) (hdomain : KeyDomain q coll)
+    (hskip : q.skip = 0) (hlimit : q.limit < 0) :
+    ∃ res, (withTx false (Op.body likeFn fnFam (.findAll q)) noFault σ).1 = .ok (.docs res) ∧
+      res.Perm (Spec.findAll likeFn fnFam q coll) :=
+  findAll_exact_any_plan likeFn fnFam s σ hw hr q coll hl hdomain hskip hlimit
+
+/-- **One public call refines the specification** (fault-free run; every operation kind, with `Save`
+    and `ReplaceById` routed as the code routes them; queries served by a full scan — in particular
+    every call on collections without indexes): same answer, sentinel errors included, and the new
+    store represents the specification's new state. -/
+theorem refine_step (op : Op) (hop : OpOK op) (s : Spec.State) (σ : DBState) (hcl : σ.closed = false)
+    (hw : WF s) (hr : Rep s σ.kv) (hdet : Op.Determined s op) :
+    let r := op.run likeFn fnFam σ noFault
+    let sp := Spec.step likeFn fnFam s op
+    r.out = sp.1 ∧ Rep sp.2 r.state.kv ∧ WF sp.2 ∧ r.state.closed = false :=
+  CV.refine_step likeFn fnFam op hop s σ hcl hw hr hdet
+
+/-- **Every history refines the specification**: from the empty database, for any finite sequence of
+    operations each of which is determined in the state reached so far, the model's answers equal
+    the specification's answers call by call — so `FindAll` returns the documents satisfying its
+    criteria with the field values last written, after any interleaving of inserts, updates,
+    replacements, deletes, index and collection operations. -/
+theorem refine_history (ops : List Op) (hok : ∀ op ∈ ops, OpOK op) (hdet : AllDetermined likeFn fnFam ops []) :
+    (modelRun likeFn fnFam ops {}).1 = (specRun likeFn fnFam ops []).1 ∧
+      Rep (specRun likeFn fnFam ops []).2 (modelRun likeFn fnFam ops {}).2.kv ∧ WF (specRun likeFn fnFam ops []).2 :=
+  refine_from_empty likeFn fnFam ops hok hdet
 
 end CV.Props.C01
